@@ -18,6 +18,7 @@ R = {
  "C01-g": (7, True, "reported by C02 / C04 T4-none-outside-ranges and the sibling cross-check at first run; the rule now also runs under C01 and additionally decides that no in-range tuple is rejected by the guard alone (second shape: dimension 3, size 1)", "a symbol printed through SimpleDSym with size <= dim - 2: the cubic tiling <1.1:1 3:1,1,1,1:4,3,4> prints 4,3,0"),
  "C09-g": (7, True, "", "a word u c u^-1 with |u| >= 2 reaching relator_representative: 3D symbol <1.1:4 3:2 4,3 4,4 3,1 2 3 4:4,2,6 6>"),
  "C20-g": (7, True, "", "IntPartition unite(a, b) with b never seen and a >= b: unite(4, 3) on fresh elements"),
+ "C15-g": (7, False, "C13 T3-propagate-single-cut made exact: the only program test between the contains_key lookup and the push of an unlabelled occurrence is that lookup (facts from MIR assertions excluded) - an additional `not already in cuts` conjunct is reported", "a relator containing a generator twice with the same sign whose sub-word in between lies in the candidate subgroup, the repeated edge being the only open one: 30 of 5933 symmetry-reduced versions of the test symbols; sheet number depends on the numbering"),
  "C19-g": (7, True, "", "undirected edge cut with source label > sink label; inside_vertices is then the sink's side"),
 }
 for sid, (rnd, first, strength, needs) in R.items():
